@@ -217,10 +217,14 @@ type c41Env struct {
 	n    map[string]int
 }
 
+// c41Ranks: position of every name in the bytewise order of the distinct NON-EMPTY names (1..n); the empty name
+// - the least byte string, a boundary value the spec treats separately - has rank 0.
 func c41Ranks(names []string) []int {
 	uniq := map[string]bool{}
 	for _, n := range names {
-		uniq[n] = true
+		if n != "" {
+			uniq[n] = true
+		}
 	}
 	var sorted [][]byte
 	for n := range uniq {
@@ -306,7 +310,11 @@ func (e *c41Env) tree(fam, desc string, nodes []*Node) {
 		dr := []int{}
 		diffs := [][]string{}
 		for i, d := range dec {
-			dr = append(dr, rankOf[d.Name]) // 0 for a name that was never inserted
+			if rk, ok := rankOf[d.Name]; ok {
+				dr = append(dr, rk)
+			} else {
+				dr = append(dr, 1000000) // a name that was never inserted
+			}
 			if i < len(admitted) {
 				diffs = append(diffs, c41Diff(admitted[i], d))
 			} else {
@@ -429,9 +437,7 @@ func TestVerif_C41(t *testing.T) {
 	// ---- A: one-factor sweeps: every class value of every field, entry alone and inside a tree
 	sweep := func(fam, desc string, n *Node) {
 		e.node(fam, desc, n)
-		if n.Name != "" {
-			e.tree(fam, desc, []*Node{n})
-		}
+		e.tree(fam, desc, []*Node{n})
 	}
 	huge := strings.Repeat("n\xff\"\\", 16384) // 64 KiB with every kind of trouble
 	for _, name := range append(append([]string{}, c41Names...), "", huge, strings.Repeat("x", 65536)) {
@@ -548,6 +554,7 @@ func TestVerif_C41(t *testing.T) {
 	// ---- B: insertion sequences: every sequence of length <= 4 over the names of a name set (duplicates and
 	// disorder included); the spec says which insertions a sorted tree admits
 	sets := [][]string{
+		{"", "\x00", "a", "\x00\x00"}, // boundary names: the empty name (least byte string) and its successors
 		{"a", "b", "c", "d"},
 		{"a\xfe", "a\xff", "a\u00ff", "a"},                 // order of invalid bytes vs valid multi-byte characters
 		{`\`, `"`, "\\\\", `\"`},                            // names made of escape characters
@@ -576,8 +583,8 @@ func TestVerif_C41(t *testing.T) {
 		}
 		gen(nil)
 		for qi, seq := range seqs {
-			if !thorough && si >= 2 && len(seq) == 4 && (qi+si+int(kit.Seed()))%4 != 0 {
-				continue // quick: full table for two name sets, a seed-dependent quarter of the length-4 sequences otherwise
+			if !thorough && si >= 3 && len(seq) == 4 && (qi+si+int(kit.Seed()))%4 != 0 {
+				continue // quick: full table for three name sets, a seed-dependent quarter of the length-4 sequences otherwise
 			}
 			nodes := []*Node{}
 			for _, i := range seq {
@@ -591,10 +598,46 @@ func TestVerif_C41(t *testing.T) {
 		}
 	}
 
+	// ---- B2: boundary names in FIRST position followed by 0..5 further entries (sorted listing, as a directory
+	// reader would deliver it), every entry a plain or a random node; the spec accepts a rejected empty name or a
+	// faithfully encoded one - never a tree that does not decode to exactly the admitted entries
+	firsts := []string{"", "\x00", "\x00\x00", "\x01", " ", "!", "\"", ",", "-", ".", "/", "0", "A", "[", "\\", "]", "a", "{", "}", "\x7f", "\x80", "\xff", huge}
+	for fi, first := range firsts {
+		for k := 0; k <= 5; k++ {
+			for variant := 0; variant < 2; variant++ {
+				names := []string{first}
+				for j := 0; j < k; j++ {
+					// strictly increasing continuation: the previous name extended by one byte / a larger last byte
+					prev := names[len(names)-1]
+					switch (j + fi + variant) % 3 {
+					case 0:
+						names = append(names, prev+"\x00")
+					case 1:
+						names = append(names, prev+string([]byte{byte(1 + rnd.Intn(255))}))
+					default:
+						names = append(names, first+strings.Repeat("\xff", j+1))
+					}
+				}
+				nodes := []*Node{}
+				for _, nm := range names {
+					if variant == 1 {
+						nodes = append(nodes, e.randomNode(nm))
+					} else {
+						nodes = append(nodes, e.baseNode(nm))
+					}
+				}
+				e.tree("first-name", fmt.Sprintf("%s +%d v%d", c41Short(first), k, variant), nodes)
+			}
+		}
+	}
+
 	// ---- C: random trees with random entries (all fields at once), inserted in sorted order, and a shuffled order
 	for i := 0; i < kit.Pick(400, 30000); i++ {
 		k := 1 + rnd.Intn(6)
 		names := map[string]bool{}
+		if rnd.Intn(8) == 0 {
+			names[""] = true // a listing with an empty name
+		}
 		for len(names) < k {
 			if nm := e.randomName(); nm != "" {
 				names[nm] = true
